@@ -20,6 +20,7 @@ ASSUMPTIONS = [
     "destructor behaviour for Ready slots and pending children is decided by C02.DROP",
 ]
 RULES = {
+    "C05.CTOR": "entry point: every operand becomes the child of its own position, converted by into_future / into_stream only; nothing reorders, drops or duplicates operands",
     "C05.LIVE": "premises from the wake protocol, re-checked here for this family: task waker registered first, child polled with its own sub-waker (or the caller's context), no readiness lock across a child poll, a cleared bit is followed by a poll, re-arm after an item, readiness primitives / Wake::wake forward correctly",
     "C05.POS": "child's Ok payload is written exactly once, to the child's own slot; Ok result is the positional slot container",
     "C05.CNT": "counter discipline and guard of the Ok return (as C04.CNT)",
@@ -39,6 +40,8 @@ def run(ctx):
         M = ctx.model(cfg)
         units = families.subwaker_units(M, ("try_join",), groups=False)
         c01.live_premises(ctx, M, units, "C05.LIVE")
+        from . import ctors
+        ctors.run_family(ctx, M, units, "C05.CTOR", cfg)
         for u in units:
             joinlike.rule_pos(ctx, M, u, "C05.POS")
             joinlike.rule_result(ctx, M, u, "C05.POS")
